@@ -89,7 +89,20 @@ def run(case):
             tx, tz = t.transform(X), t.transform(Z)
             comb = t.transform(a * X + b * Z)
             w_after = [hx(v) for v in t.information_weights_]
-            tr[name] = {"fit_returns_self": r is t, "w": w, "w_after_transform": w_after, "tx": dense_of(tx), "tz": dense_of(tz), "comb": dense_of(comb),
+            # call history on the SAME estimator object: refit on another matrix, refit supervised, transform again
+            hist = []
+            for mode in ("refit_other", "refit_supervised", "refit_again"):
+                try:
+                    if mode == "refit_other":
+                        t.fit(X + Z)
+                    elif mode == "refit_supervised":
+                        t.fit(X, y=np.arange(X.shape[0]) % 2)
+                    else:
+                        t.fit(X)
+                    hist.append({"mode": mode, "w": [hx(v) for v in t.information_weights_], "tx": dense_of(t.transform(X))})
+                except Exception as e:  # noqa
+                    hist.append({"mode": mode, "err": type(e).__name__, "msg": str(e)[:200]})
+            tr[name] = {"history": hist, "fit_returns_self": r is t, "w": w, "w_after_transform": w_after, "tx": dense_of(tx), "tz": dense_of(tz), "comb": dense_of(comb),
                         "x": dense_of(X), "z": dense_of(Z), "axbz": dense_of(a * X + b * Z)}
     except Exception as e:  # noqa
         tr["err"] = {"err": type(e).__name__, "msg": str(e)[:300], "tb": traceback.format_exc()[-500:]}
